@@ -422,7 +422,12 @@ def _workload(tier, rng, shard, nshards):
             refs = sorted(set(refs) | {rng.choice(refs) + D * rng.choice((0.5, 0.75))})
         rkind = rng.choice("IP")
         if rkind == "P" or len(refs) < 2:
-            ref = make_tier("P", "ref", [(r, "r") for r in refs], 0.0, 6.0)
+            rents = [(r, "r") for r in refs]
+            if refs and rng.random() < 0.12:
+                # two marks on one instant in the reference tier (a tone and a boundary on the same point): still one timestamp
+                rents = sorted(rents + [(rng.choice(refs[: max(1, len(refs) - 1)]), "r2")])
+                REC.cls("C14:reference-with-two-points-at-one-time")
+            ref = make_tier("P", "ref", rents, 0.0, 6.0)
         else:
             ref = make_tier("I", "ref", [(refs[i], refs[i + 1], "r") for i in range(0, len(refs) - 1, 2)], 0.0, 6.0)
         refs = sorted({v for e in ref.entries for v in e[:-1]})
